@@ -651,7 +651,12 @@ class UniformTime(np.ndarray, TimeInterface):
                 c_f = time_unit_conversion[time_unit]
                 sampling_interval = sampling_rate.to_period() / float(c_f)
             elif sampling_rate is None:
-                sampling_interval = float(duration) / length
+                if isinstance(duration, TimeInterface):
+                    # float() of a time object is in the base unit:
+                    sampling_interval = (float(duration) /
+                            time_unit_conversion[time_unit]) / length
+                else:
+                    sampling_interval = float(duration) / length
                 sampling_rate = Frequency(1.0 / sampling_interval,
                                           time_unit=time_unit)
             else:
@@ -1235,7 +1240,12 @@ class TimeSeries(TimeSeriesBase):
                 sampling_interval = sampling_rate.to_period() / float(c_f)
             elif sampling_rate is None:
                 data_len = np.asarray(data).shape[-1]
-                sampling_interval = float(duration) / data_len
+                if isinstance(duration, TimeInterface):
+                    # float() of a time object is in the base unit:
+                    sampling_interval = (float(duration) /
+                        time_unit_conversion[time_unit]) / data_len
+                else:
+                    sampling_interval = float(duration) / data_len
                 sampling_rate = Frequency(1.0 / sampling_interval,
                                              time_unit=time_unit)
             else:
